@@ -85,7 +85,8 @@ Inductive auth := AuthOk | AuthFail | AuthStall.   (* what the client does about
 Inductive req := QRoot | QBump (o : oid) | QMake (o : oid) | QStr (o : oid) | QDel (o : oid) | QClose.
 Inductive reply := POid (o : oid) | PVal (n : nat) | POk | PErr.
 Inductive stage :=
-| Fresh         (* never accepted *)
+| Fresh         (* never connected *)
+| Backlog       (* connected (may already send, or leave), waiting in the listener's queue *)
 | Own           (* its own worker serves it: thread (threaded), child process (forking), the accept loop itself (one-shot) *)
 | Authing       (* thread pool: the accept loop is inside the authenticator for this socket *)
 | Pooled        (* thread pool: registered in fd_to_conn *)
@@ -116,7 +117,8 @@ Record st := {
   workers : list (option (cid * nat));     (* pool workers: idle, or inside _serve_requests(c) with n polls of the batch left *)
   shared : svc;                            (* the one service instance when an instance (not a class) is registered *)
   conns : cid -> conn;
-  accepted : list cid                      (* ghost: accepted connections, oldest first *)
+  accepted : list cid;                     (* ghost: accepted connections, oldest first *)
+  backlog : list cid                       (* connections the listener holds, oldest first *)
 }.
 
 (* ---- small list helpers ---- *)
@@ -133,28 +135,34 @@ Fixpoint set_nth {A} (n : nat) (v : A) (l : list A) : list A :=
   | x :: r, S m => x :: set_nth m v r
   end.
 Definition is_none {A} (o : option A) : bool := match o with None => true | Some _ => false end.
+Definition is_fresh (g : stage) : bool := match g with Fresh => true | _ => false end.
 
 (* ---- record updates ---- *)
 Definition upd (f : cid -> conn) (c : cid) (k : conn) : cid -> conn := fun x => if Nat.eqb x c then k else f x.
 Definition with_conns (s : st) (f : cid -> conn) : st :=
   {| active := active s; closed := closed s; lopen := lopen s; busy := busy s; clients := clients s; fdmap := fdmap s;
-     pollset := pollset s; queue := queue s; workers := workers s; shared := shared s; conns := f; accepted := accepted s |}.
+     pollset := pollset s; queue := queue s; workers := workers s; shared := shared s; conns := f; accepted := accepted s; backlog := backlog s |}.
 Definition set_conn (s : st) (c : cid) (k : conn) : st := with_conns s (upd (conns s) c k).
 Definition with_clients (s : st) (l : list cid) : st :=
   {| active := active s; closed := closed s; lopen := lopen s; busy := busy s; clients := l; fdmap := fdmap s;
-     pollset := pollset s; queue := queue s; workers := workers s; shared := shared s; conns := conns s; accepted := accepted s |}.
+     pollset := pollset s; queue := queue s; workers := workers s; shared := shared s; conns := conns s; accepted := accepted s; backlog := backlog s |}.
 Definition with_busy (s : st) (b : option cid) : st :=
   {| active := active s; closed := closed s; lopen := lopen s; busy := b; clients := clients s; fdmap := fdmap s;
-     pollset := pollset s; queue := queue s; workers := workers s; shared := shared s; conns := conns s; accepted := accepted s |}.
+     pollset := pollset s; queue := queue s; workers := workers s; shared := shared s; conns := conns s; accepted := accepted s; backlog := backlog s |}.
 Definition with_pool (s : st) (fm ps qu : list cid) (ws : list (option (cid * nat))) : st :=
   {| active := active s; closed := closed s; lopen := lopen s; busy := busy s; clients := clients s; fdmap := fm;
-     pollset := ps; queue := qu; workers := ws; shared := shared s; conns := conns s; accepted := accepted s |}.
+     pollset := ps; queue := qu; workers := ws; shared := shared s; conns := conns s; accepted := accepted s; backlog := backlog s |}.
 Definition with_shared (s : st) (v : svc) : st :=
   {| active := active s; closed := closed s; lopen := lopen s; busy := busy s; clients := clients s; fdmap := fdmap s;
-     pollset := pollset s; queue := queue s; workers := workers s; shared := v; conns := conns s; accepted := accepted s |}.
+     pollset := pollset s; queue := queue s; workers := workers s; shared := v; conns := conns s; accepted := accepted s; backlog := backlog s |}.
 Definition with_accepted (s : st) (l : list cid) : st :=
   {| active := active s; closed := closed s; lopen := lopen s; busy := busy s; clients := clients s; fdmap := fdmap s;
-     pollset := pollset s; queue := queue s; workers := workers s; shared := shared s; conns := conns s; accepted := l |}.
+     pollset := pollset s; queue := queue s; workers := workers s; shared := shared s; conns := conns s; accepted := l; backlog := backlog s |}.
+
+Definition with_backlog (s : st) (l : list cid) : st :=
+  {| active := active s; closed := closed s; lopen := lopen s; busy := busy s; clients := clients s; fdmap := fdmap s;
+     pollset := pollset s; queue := queue s; workers := workers s; shared := shared s; conns := conns s; accepted := accepted s;
+     backlog := l |}.
 
 Definition k_stage (k : conn) (g : stage) : conn :=
   {| stg := g; abeh := abeh k; authd := authd k; inb := inb k; gone := gone k; shut := shut k; cclosed := cclosed k;
@@ -242,16 +250,18 @@ Definition serve_on (s : st) (c : cid) (q : req) (rest : list byte) : st :=
 Definition shut_all (l : list cid) (f : cid -> conn) : cid -> conn := fun x => if mem x l then k_shut (f x) else f x.
 Definition drop_all (l : list cid) (f : cid -> conn) : cid -> conn :=
   fun x => if mem x l then k_stage (close_conn (f x)) Finished else f x.
+Definition reset_all (l : list cid) (f : cid -> conn) : cid -> conn :=
+  fun x => if mem x l then k_stage (k_shut (f x)) Finished else f x.
 Definition server_close (s : st) : st :=
   if closed s then s else
-  let f1 := shut_all (clients s) (conns s) in
+  let f1 := shut_all (clients s) (reset_all (backlog s) (conns s)) in    (* closing the listener resets what it still queued *)
   let pool_fix := match kind K with Pool => pool_close_drops (fx K) | _ => false end in
   {| active := false; closed := true; lopen := false; busy := busy s; clients := [];
      fdmap := if pool_fix then [] else fdmap s;
      pollset := if pool_fix then [] else pollset s;
      queue := queue s; workers := workers s; shared := shared s;
      conns := if pool_fix then drop_all (fdmap s) f1 else f1;
-     accepted := accepted s |}.
+     accepted := accepted s; backlog := [] |}.
 
 (* the `finally` of _authenticate_and_serve_client: shutdown, discard from clients; a one-shot server then closes itself *)
 Definition finish_own (c : cid) (s : st) : st :=
@@ -269,8 +279,9 @@ Definition pool_reject (c : cid) (s : st) : st :=
   let k := conns s c in
   with_clients (set_conn s c (k_stage (k_shut k) Finished))
                (if pool_fail_discards (fx K) then rm c (clients s) else clients s).
-Definition accept (c : cid) (a : auth) (s : st) : st :=
-  let s0 := with_accepted (with_clients (set_conn s c (k_abeh (k_stage (conns s c) Own) a)) (clients s ++ [c])) (accepted s ++ [c]) in
+Definition accept (c : cid) (rest : list cid) (s : st) : st :=
+  let a := abeh (conns s c) in
+  let s0 := with_backlog (with_accepted (with_clients (set_conn s c (k_stage (conns s c) Own)) (clients s ++ [c])) (accepted s ++ [c])) rest in
   match kind K with
   | Threaded => s0
   | OneShot => with_busy s0 (Some c)
@@ -359,9 +370,11 @@ Definition serve_step (w : nat) (s : st) : option st :=
   end.
 
 Inductive event :=
-| EAccept (c : cid) (a : auth)       (* the accept loop takes a new connection *)
+| EConnect (c : cid) (a : auth)      (* a new client connects (the kernel queues it); a: what it will do about authentication *)
+| EAccept                            (* the accept loop takes the oldest queued connection *)
 | ESend (c : cid) (bs : list byte)   (* the client sends bytes: ANY bytes *)
-| ELeave (c : cid) (abrupt : bool)   (* the client leaves: close (FIN) or reset; a reset discards what the server has not read *)
+| ELeave (c : cid) (abrupt : bool)   (* the client leaves: close (FIN) or reset; a reset discards what the server has not read
+                                        (credentials included) *)
 | EWork (c : cid)                    (* the next step of c's own worker *)
 | EPoll (c : cid) (hup : bool)       (* pool: the polling thread reports c (readable, or hung up) *)
 | ETake (w : nat)                    (* pool: idle worker w takes the head of the active queue *)
@@ -370,21 +383,21 @@ Inductive event :=
 
 Definition step (e : event) (s : st) : option st :=
   match e with
-  | EAccept c a =>
-      if active s && lopen s && is_none (busy s) && match stg (conns s c) with Fresh => true | _ => false end
-      then Some (accept c a s) else None
+  | EConnect c a =>
+      if lopen s && is_fresh (stg (conns s c))
+      then Some (with_backlog (set_conn s c (k_abeh (k_stage (conns s c) Backlog) a)) (backlog s ++ [c])) else None
+  | EAccept =>
+      match backlog s with
+      | c :: rest => if active s && lopen s && is_none (busy s) then Some (accept c rest s) else None
+      | [] => None
+      end
   | ESend c bs =>
       let k := conns s c in
-      match stg k with
-      | Fresh => None
-      | _ => if gone k then None else Some (set_conn s c (k_inb k (inb k ++ bs)))
-      end
+      if is_fresh (stg k) || gone k then None else Some (set_conn s c (k_inb k (inb k ++ bs)))
   | ELeave c abrupt =>
       let k := conns s c in
-      match stg k with
-      | Fresh => None
-      | _ => if gone k then None else Some (set_conn s c (k_gone (if abrupt then k_inb k [] else k)))
-      end
+      if is_fresh (stg k) || gone k then None
+      else Some (set_conn s c (k_gone (if abrupt then k_inb (if authd k then k else k_abeh k AuthStall) [] else k)))
   | EWork c => work c s
   | EPoll c hup => match kind K with Pool => poll_step c hup s | _ => None end
   | ETake w => match kind K with Pool => take_step w s | _ => None end
@@ -395,7 +408,7 @@ Definition step (e : event) (s : st) : option st :=
 Definition init : st :=
   {| active := true; closed := false; lopen := true; busy := None; clients := []; fdmap := []; pollset := []; queue := [];
      workers := match kind K with Pool => repeat None (nworkers K) | _ => [] end;
-     shared := {| cnt := 0; nmade := 0 |}; conns := fun _ => fresh_conn; accepted := [] |}.
+     shared := {| cnt := 0; nmade := 0 |}; conns := fun _ => fresh_conn; accepted := []; backlog := [] |}.
 
 (* histories: events that are not enabled are skipped (run) or reported (run_log) *)
 Fixpoint run (l : list event) (s : st) : st :=
@@ -409,7 +422,7 @@ Inductive reach : st -> Prop :=
 
 (* events of the server's own threads (not of clients, not close) *)
 Definition internal (e : event) : bool :=
-  match e with EWork _ | EPoll _ _ | ETake _ | EServe _ => true | _ => false end.
+  match e with EAccept | EWork _ | EPoll _ _ | ETake _ | EServe _ => true | _ => false end.
 Definition quiescent (s : st) : Prop := forall e, internal e = true -> step e s = None.
 
 (* the pure endpoint semantics of one connection, as a function of the requests served on it *)
@@ -440,10 +453,11 @@ Definition sx_oid (o : oid) : sx := SL [snat (fst o); snat (snd o)].
 Definition sx_reply (r : reply) : sx :=
   match r with POid o => SL [SI 0; sx_oid o] | PVal n => SL [SI 1; snat n] | POk => SL [SI 2] | PErr => SL [SI 3] end.
 Definition stage_z (g : stage) : Z :=
-  match g with Fresh => 0 | Own => 1 | Authing => 2 | Pooled => 3 | Finished => 4 end.
+  match g with Fresh => 0 | Own => 1 | Authing => 2 | Pooled => 3 | Finished => 4 | Backlog => 5 end.
 Definition event_of_sx (x : sx) : option event :=
   match x with
-  | SL [SI 0; c; a] => Some (EAccept (sx_nat c) (auth_of_z (sx_z a)))
+  | SL [SI 0; c; a] => Some (EConnect (sx_nat c) (auth_of_z (sx_z a)))
+  | SL [SI 8] => Some EAccept
   | SL [SI 1; c; SB b] => Some (ESend (sx_nat c) b)
   | SL [SI 2; c; ab] => Some (ELeave (sx_nat c) (sx_bool ab))
   | SL [SI 3; c] => Some (EWork (sx_nat c))
@@ -465,7 +479,7 @@ Definition try_first (s : st) (evs : list event) : option st :=
   fold_left (fun acc e => match acc with Some _ => acc | None => step decomp decode K e s end) evs None.
 (* abrupt departures are reported by the poller as hang-ups, graceful ones as readable *)
 Definition candidates (hups : list cid) (s : st) : list event :=
-  map EWork (accepted s)
+  EAccept :: map EWork (accepted s)
   ++ map (fun c => EPoll c (mem c hups)) (pollset s)
   ++ map EServe (seq 0 (List.length (workers s)))
   ++ map ETake (seq 0 (List.length (workers s))).
@@ -487,7 +501,7 @@ Definition sx_state (s : st) : sx :=
       match busy s with Some c => snat c | None => SI (-1) end;
       SL (map snat (clients s)); SL (map snat (fdmap s)); SL (map snat (pollset s)); SL (map snat (queue s));
       SL (map (fun w => match w with Some (c, n) => SL [snat c; snat n] | None => SL [] end) (workers s));
-      SL (map (fun c => sx_conn c (conns s c)) (accepted s))].
+      SL (map (fun c => sx_conn c (conns s c)) (accepted s)); SL (map snat (backlog s))].
 
 (* a case: configuration, decoder tables, and a script of items:
      (0 ev)  apply the event, report whether it was enabled
